@@ -657,6 +657,9 @@ func main() {
 	ctx.Jobs("smpte", 16, func(j int) { smpteProduct(j, 16) })
 	ctx.Jobs("keys", 1, func(int) { keys(); nilMasks(); ownership() })
 	ctx.Jobs("tempo", 16, func(j int) { tempos(j, 16) })
+	if !ctx.IsChild() {
+		ctx.RacePairs("meta")
+	}
 	ctx.Jobs("concurrent", 1, func(int) { cp.Litmus(ctx); cp.Check(ctx, "meta", concCases()) })
 	ctx.Sample(map[string]interface{}{"constructor": "MetaSequencerData(200 bytes)", "expect": "FF 7F 81 48 + data; GetMetaSeqData returns the 200 bytes"})
 	ctx.Sample(map[string]interface{}{"constructor": "MetaTempo(6e7/500001)", "expect": "payload 07 A1 21 (+-1)"})
